@@ -560,6 +560,7 @@ Proof.
     { rewrite (proj2 (Nat.ltb_lt 1 _)) by lia. rewrite (proj2 (Nat.ltb_lt i _)) by lia. reflexivity. }
     rewrite Ecur. rewrite (nbind_ok _ _ _ _ _ _ _ (create_transition_eq _)).
     set (cur := List.length (ns_trans ns)).
+    assert (Hc0 : cur = List.length (ns_trans ns)) by reflexivity.
     pose proof (okns_op_trans ns Hok) as Ok0.
     assert (L0 : List.length (ns_trans (op_trans ns)) = S cur) by (autorewrite with netops; reflexivity).
     destruct (Hs Hfs ctx prev cur (op_trans ns) Ok0 ltac:(lia) ltac:(lia)) as (ns1 & E1 & G1 & P1 & Ok1 & W1).
@@ -577,8 +578,8 @@ Proof.
       assert (Ec : Nat.eqb j cur = false) by (apply Nat.eqb_neq; lia). rewrite Ec. cbn [app].
       unfold xplace_b. rewrite last_of_cons. fold ps. fold pr. rewrite !app_nil_r.
       unfold entries_b, startcbs_b. cbn [first_pos]. fold ps. auto.
-    + rewrite P2. unfold adv_b, pr, adv, ps, conn_skip. cbn [pp pt pa].
-      rewrite nplaces_l_cons, napis_l_cons, ntrans_b_cons. f_equal; lia.
+    + rewrite P2. unfold adv_b, pr, adv, ps, conn_skip, p, pos_of. cbn [pp pt pa].
+      rewrite !nplaces_l_cons, !napis_l_cons, ntrans_b_cons. f_equal; lia.
     + cbn [wired_block]. cbv zeta. fold ps. fold pr.
       assert (Hcur : pt p = cur) by reflexivity. rewrite Hcur.
       assert (Ecl : Nat.eqb cur last = false) by (apply Nat.eqb_neq; unfold cur; lia).
@@ -588,14 +589,183 @@ Proof.
       rewrite (gn_pre _ _ _ _ _ G1 cur), (gn_post _ _ _ _ _ G1 cur), (gn_cbs _ _ _ _ _ G1 cur) by lia.
       autorewrite with netops.
       rewrite (preN_beyond ns), (postN_beyond ns), (cbsN_beyond ns) by (destruct Hok; unfold cur; lia).
-      rewrite Nat.eqb_refl, Ecl, Ecp. cbn [app]. rewrite !app_nil_r.
+      rewrite Nat.eqb_refl, Ecl, Ecp. cbn [app]. rewrite ?app_nil_r.
       split; [reflexivity|]. split; [reflexivity|]. split; [reflexivity|]. split; [|exact W2].
       apply (wired_ext ns1 ns2 s Hfs ps ctx []); [|exact W1].
       eapply GenF_agree; [exact G2| | |].
       * intros j Hj. unfold ps, conn_skip, p, pos_of in Hj. cbn [pt] in Hj. fold cur in Hj.
-        assert (Es : Nat.eqb j last = false) by (apply Nat.eqb_neq; lia).
+        assert (Es : Nat.eqb j last = false) by (apply Nat.eqb_neq; clear - H2 Hc0 Hj; lia).
         assert (Et : Nat.eqb j cur = false) by (apply Nat.eqb_neq; lia).
         cbn beta. rewrite Es, Et. auto.
-      * pose proof (f_equal pt P1) as Ept. unfold pos_of, adv in Ept. cbn [pt] in Ept. lia.
-      * pose proof (f_equal pa P1) as Epa. unfold pos_of, adv in Epa. cbn [pa] in Epa. lia.
+      * pose proof (f_equal pt P1) as Ept. unfold pr, pos_of, adv in Ept. cbn [pt] in Ept. lia.
+      * pose proof (f_equal pa P1) as Epa. unfold pr, pos_of, adv in Epa. cbn [pa] in Epa. lia.
+Qed.
+
+(* ---- list versions of [wired_agree] ---- *)
+Lemma wired_block_agree : forall N N' e extra l, frag_block l = true -> forall p ctx xcbs,
+    agree N N' p (ntrans_b l) (napis_l l) e extra ->
+    ((e < pt p \/ pt p + ntrans_b l <= e) \/ e = exit_b l p) ->
+    wired_block (wired N) N ctx xcbs l p ->
+    wired_block (wired N') N' ctx (xcbs ++ if Nat.eqb e (exit_b l p) then extra else []) l p.
+Proof.
+  intros N N' e extra l Hf. apply wired_agree_block; [|exact Hf].
+  apply Forall_forall. intros s _ Hs. apply wired_agree. exact Hs.
+Qed.
+
+Lemma wired_list_ext : forall N N' e l, frag_brs l = true -> forall q ctx,
+    agree N N' q (ntrans_l l) (napis_l l) e [] ->
+    (e < pt q \/ pt q + ntrans_l l <= e) ->
+    wired_list (wired N) ctx l q -> wired_list (wired N') ctx l q.
+Proof.
+  intros N N' e l Hf. apply (wired_agree_list N N' e []); [|exact Hf].
+  apply Forall_forall. intros s _ Hs. apply wired_agree. exact Hs.
+Qed.
+
+Lemma agree_op_cb : forall N e c p dt da,
+    e < List.length (ns_cbs N) -> agree N (op_cb e c N) p dt da e [c].
+Proof.
+  intros N e c p dt da He. split; [|split].
+  - intros j Hj. autorewrite with netops. split; [reflexivity|]. split; [reflexivity|].
+    rewrite (Nat.eqb_sym e j). destruct (Nat.eqb_spec j e); cbn [andb]; [|reflexivity].
+    rewrite (proj2 (Nat.ltb_lt e _)) by exact He. reflexivity.
+  - intros j Hj. reflexivity.
+  - exists []. split; [reflexivity|constructor].
+Qed.
+
+Lemma nfor_one_cb : forall e c s, nfor [e] (fun e => add_callback e c) s = Ok (tt, op_cb e c s).
+Proof.
+  intros. cbn [nfor]. rewrite (nbind_ok _ _ _ _ _ _ _ (add_callback_eq _ _ _)). reflexivity.
+Qed.
+
+Lemma gen_call : forall t at_ ins body, Forall GenOK body -> GenOK (XCall t at_ ins body).
+Proof.
+  intros t at_ ins body HF Hf ctx t1 t2 ns Hok H1 H2 p.
+  apply frag_call in Hf. destruct Hf as [_ Hfb].
+  destruct Hok as [Hcb Hfr].
+  cbn [pg_stmt]. rewrite nbind_fresh, nbind_new_api.
+  rewrite (nbind_ok _ _ _ _ _ _ _ (add_callback_eq _ _ _)).
+  set (a := List.length (ns_apis ns)).
+  set (A := {| a_is_task := true; a_name := t; a_site := at_; a_uuid := IUuid (ns_fresh ns); a_ctx := Some ctx;
+               a_in_loop := false; a_params := ins; a_src := ins; a_has_call := true |}).
+  set (ns1 := op_cb t1 (CbTS a) (op_api A ns)).
+  assert (Ok1 : okns ns1).
+  { unfold ns1. split; autorewrite with netops; [exact Hcb|]. rewrite app_length. cbn [List.length]. lia. }
+  assert (P1 : pos_of ns1 = body_pos p).
+  { unfold ns1, pos_of, body_pos, p, pos_of. autorewrite with netops. rewrite app_length. cbn [List.length pp pt pa]. f_equal. lia. }
+  assert (Lt1 : List.length (ns_trans ns1) = List.length (ns_trans ns)) by (unfold ns1; autorewrite with netops; reflexivity).
+  destruct (gen_block_go body HF Hfb (List.length body) 0 t1 [] a t2 ns1 eq_refl Ok1 ltac:(lia) ltac:(lia))
+    as (ns2 & E2 & G2 & P2 & Ok2 & W2).
+  rewrite P1 in E2, G2, P2, W2. set (bp := body_pos p) in *.
+  pose proof (exit_range_b body Hfb bp) as Hex.
+  assert (Lt2 : List.length (ns_trans ns2) = pt bp + ntrans_b body).
+  { pose proof (f_equal pt P2) as E. unfold pos_of, adv_b in E. cbn [pt] in E. exact E. }
+  assert (Hbp : pt bp = List.length (ns_trans ns)) by reflexivity.
+  unfold nbind at 1. rewrite E2. unfold nbind at 1. rewrite nfor_one_cb. unfold nret.
+  set (e := exit_b body bp) in *.
+  exists (op_cb e (CbTF a) ns2). split; [reflexivity|]. split; [|split; [|split]].
+  - unfold Gen in *.
+    eapply GenF_ext;
+      [eapply GenF_trans; [apply (GenF_op_api A ns)|
+       eapply GenF_trans; [apply (GenF_op_cb t1 (CbTS a) (op_api A ns)); autorewrite with netops; exact Hcb|
+       eapply GenF_trans; [exact G2|apply (GenF_op_cb e (CbTF a) ns2); apply Ok2]]]|].
+    intros j Hj. cbn beta. unfold fnil. cbn [app]. rewrite !app_nil_r.
+    assert (Ee : Nat.eqb j e = false) by (apply Nat.eqb_neq; lia). rewrite Ee, app_nil_r.
+    split; [reflexivity|]. split; [reflexivity|].
+    destruct (Nat.eqb j t1); reflexivity.
+  - unfold pos_of in *. autorewrite with netops. rewrite P2. unfold adv_b, adv, bp, body_pos.
+    cbn [pp pt pa]. rewrite nplaces_call, ntrans_call, napis_call. f_equal. lia.
+  - destruct Ok2 as [Hcb2 Hfr2]. split; autorewrite with netops; assumption.
+  - cbn [wired]. split.
+    + exists A. split; [|reflexivity]. autorewrite with netops.
+      rewrite (gn_apis _ _ _ _ _ G2) by (unfold ns1; autorewrite with netops; rewrite app_length; cbn [List.length]; unfold p, pos_of; cbn [pa]; lia).
+      unfold ns1. autorewrite with netops. unfold p, pos_of. cbn [pa].
+      rewrite nth_error_app2, Nat.sub_diag by lia. reflexivity.
+    + pose proof (wired_block_agree ns2 (op_cb e (CbTF a) ns2) e [CbTF a] body Hfb bp a []) as Hx.
+      rewrite Nat.eqb_refl in Hx. cbn [app] in Hx.
+      apply Hx; [|right; reflexivity|exact W2].
+      apply agree_op_cb. destruct Ok2 as [Hcb2 _]. rewrite Hcb2. lia.
+Qed.
+
+Lemma gen_par : forall bs, Forall GenOK bs -> GenOK (XParallel bs).
+Proof.
+  intros bs HF Hf ctx t1 t2 ns Hok H1 H2 p.
+  apply frag_par in Hf. destruct Hf as [_ Hfb].
+  cbn [pg_stmt]. rewrite (nbind_ok _ _ _ _ _ _ _ (create_transition_eq _)).
+  rewrite (nbind_ok _ _ _ _ _ _ _ (create_place_eq _)).
+  set (sync := List.length (ns_trans ns)).
+  assert (Hs0 : sync = List.length (ns_trans ns)) by reflexivity.
+  replace (List.length (ns_places (op_trans ns))) with (List.length (ns_places ns)) by (autorewrite with netops; reflexivity).
+  set (pfin := List.length (ns_places ns)).
+  set (ns1 := op_place (op_trans ns)).
+  assert (Ok1 : okns ns1).
+  { destruct Hok as [Hcb Hfr]. unfold ns1. split; autorewrite with netops; [lia|exact Hfr]. }
+  assert (P1 : pos_of ns1 = par_pos p).
+  { unfold ns1, pos_of, par_pos, p, pos_of. autorewrite with netops. rewrite app_length. cbn [List.length pp pt pa]. f_equal. lia. }
+  assert (Lt1 : List.length (ns_trans ns1) = S sync) by (unfold ns1; autorewrite with netops; reflexivity).
+  destruct (gen_calls bs HF Hfb ctx t1 sync ns1 Ok1 ltac:(lia) ltac:(lia)) as (ns2 & E2 & G2 & P2 & Ok2 & W2).
+  rewrite P1 in G2, P2, W2. set (q := par_pos p) in *.
+  assert (Lt2 : List.length (ns_trans ns2) = pt q + ntrans_l bs).
+  { pose proof (f_equal pt P2) as E. unfold pos_of, adv_l in E. cbn [pt] in E. exact E. }
+  assert (Hq : pt q = S sync) by reflexivity.
+  unfold nbind at 1. rewrite E2.
+  rewrite (nbind_ok _ _ _ _ _ _ _ (add_output_eq _ _ _)).
+  rewrite (nbind_ok _ _ _ _ _ _ _ (add_input_eq _ _ _)). unfold nret.
+  set (ns3 := op_in pfin t2 (op_out pfin sync ns2)).
+  assert (G23 : GenF ns2 ns3 (fun j => [] ++ (if Nat.eqb j t2 then [pfin] else []))
+                     (fun j => (if Nat.eqb j sync then [pfin] else []) ++ []) (fun j => [] ++ [])).
+  { unfold ns3. eapply GenF_trans; [apply GenF_op_out|apply GenF_op_in]. }
+  assert (G13 : GenF ns1 ns3
+                     (fun j => (if Nat.eqb j sync then cat_of (fun b q => [xplace b q]) bs q else []) ++ ([] ++ (if Nat.eqb j t2 then [pfin] else [])))
+                     (fun j => (if Nat.eqb j t1 then cat_of entries bs q else []) ++ ((if Nat.eqb j sync then [pfin] else []) ++ []))
+                     (fun j => (if Nat.eqb j t1 then cat_of startcbs bs q else []) ++ ([] ++ []))).
+  { eapply GenF_trans; [exact G2|exact G23]. }
+  exists ns3. split; [reflexivity|]. split; [|split; [|split]].
+  - unfold Gen.
+    eapply GenF_ext;
+      [eapply GenF_trans; [apply (GenF_op_trans ns)|eapply GenF_trans; [apply (GenF_op_place (op_trans ns))|exact G13]]|].
+    intros j Hj. cbn beta. unfold fnil. cbn [app]. rewrite !app_nil_r.
+    assert (Ee : Nat.eqb j sync = false) by (apply Nat.eqb_neq; lia). rewrite Ee. cbn [app].
+    split; [reflexivity|]. split; reflexivity.
+  - unfold ns3, pos_of in *. autorewrite with netops. rewrite P2. unfold adv_l, adv, q, par_pos.
+    cbn [pp pt pa]. rewrite nplaces_par, ntrans_par, napis_par. f_equal; lia.
+  - destruct Ok2 as [Hcb2 Hfr2]. unfold ns3. split; autorewrite with netops; assumption.
+  - cbn [wired]. fold q. assert (Hp : pt p = sync) by reflexivity. rewrite Hp.
+    rewrite (gn_pre _ _ _ _ _ G13 sync), (gn_post _ _ _ _ _ G13 sync), (gn_cbs _ _ _ _ _ G13 sync) by lia.
+    unfold ns1. autorewrite with netops.
+    rewrite (preN_beyond ns), (postN_beyond ns), (cbsN_beyond ns) by (destruct Hok; lia).
+    rewrite Nat.eqb_refl.
+    assert (E1 : Nat.eqb sync t1 = false) by (apply Nat.eqb_neq; lia).
+    assert (E2' : Nat.eqb sync t2 = false) by (apply Nat.eqb_neq; lia).
+    rewrite E1, E2'. cbn [app]. rewrite !app_nil_r.
+    split; [reflexivity|]. split; [reflexivity|]. split; [reflexivity|].
+    apply (wired_list_ext ns2 ns3 0 bs Hfb q ctx); [|left; lia|exact W2].
+    eapply GenF_agree; [exact G23| | |].
+    + intros j Hj.
+      assert (Es : Nat.eqb j sync = false) by (apply Nat.eqb_neq; lia).
+      assert (Et : Nat.eqb j t2 = false) by (apply Nat.eqb_neq; lia).
+      cbn beta. rewrite Es, Et. auto.
+    + lia.
+    + pose proof (f_equal pa P2) as Epa. unfold pos_of, adv_l in Epa. cbn [pa] in Epa. lia.
+Qed.
+
+Theorem gen_ok : forall s, GenOK s.
+Proof.
+  induction s as [n a i|t a i body IH|bs IH|e p f IHp IHf|e b IH|v l b IH|v l c IH] using xstmt_ind';
+    try (intro Hf; discriminate Hf).
+  - intros Hf ctx t1 t2 ns Hok H1 H2 p. cbn [pg_stmt]. apply gen_service; assumption.
+  - apply gen_call. exact IH.
+  - apply gen_par. exact IH.
+Qed.
+
+Theorem gen_block : forall body, frag_block body = true ->
+    forall ctx first last ns,
+      okns ns -> first < List.length (ns_trans ns) -> last < List.length (ns_trans ns) ->
+      let p := pos_of ns in
+      exists ns', pg_block ctx body first last ns = Ok ([exit_b body p], ns') /\
+                  Gen ns ns' first last (entries_b body p) (startcbs_b body p) [xplace_b body p] /\
+                  pos_of ns' = adv_b body p /\ okns ns' /\ wired_block (wired ns') ns' ctx [] body p.
+Proof.
+  intros body Hf ctx first last ns Hok H1 H2 p. unfold pg_block.
+  apply gen_block_go; try assumption; [|reflexivity].
+  apply Forall_forall. intros s _. apply gen_ok.
 Qed.
